@@ -21,21 +21,13 @@ for which, roots, stub in (('url', ['url_parse_ipv6'], []), ('url_aggregator', [
                     note='%s::parse_ipv6 == the Standard\'s IPv6 parser + serializer (the contract shared by both URL types)' % which))
     OBLS.append(Obl('C10.parse_ipv6.serialized_identity.%s' % which, ['C10', 'C04', 'C05', 'C02'], 'P#', 'c10/ipv6_twin.c', roots=roots,
                     stub=stub, specs={'agg_update_base_hostname': 'skel/agg_update_base_hostname.recordk.spec'},
-                    unwind=48, defines=['STR_CAP=42', only, 'IPV6_FROM_ADDRESS=1'], includes=INC,
+                    unwind=44, defines=['STR_CAP=42', only, 'IPV6_FROM_ADDRESS=1'], includes=INC,
                     globals=[('omitted', 'const unsigned int'), ('url_default', '@default'), ('url_aggregator_default', '@default')],
                     solver='kissat', timeout=6000, object_bits=10, tier='thorough',
                     note='all 2^128 addresses: %s::parse_ipv6 applied to the Standard\'s serialization succeeds and stores the serialization of the same address '
                          '(with C10.serializers.ipv6.exact: parsing a serialised address is the identity)' % which))
 
-for which, roots, stub in (('url', ['url_parse_ipv6'], []), ('url_aggregator', ['agg_parse_ipv6'], ['agg_update_base_hostname'])):
-    only = 'ONLY_URL=1' if which == 'url' else 'ONLY_AGG=1'
-    OBLS.append(Obl('C02.parse_ipv6.safe.%s' % which, ['C02', 'C10'], 'P#', 'c10/ipv6_safe.c', roots=roots,
-                    stub=stub, specs={'agg_update_base_hostname': 'skel/agg_update_base_hostname.recordk.spec'},
-                    bufn=46, unwind=48, defines=['STR_CAP=42', only], includes=INC,
-                    globals=[('omitted', 'const unsigned int'), ('url_default', '@default'), ('url_aggregator_default', '@default')],
-                    solver='kissat', timeout=3000, object_bits=10, tier='thorough',
-                    note='%s::parse_ipv6: all safety checks for every input length the function admits (0..45, and too long)' % which))
-
+# (the fully unwound safety obligation C02.parse_ipv6.safe.* -- 40 min, and a timeout on changed code -- was replaced by the cut-loop one below)
 for which, root, stub in (('url', 'url_parse_ipv6', ['serializers_ipv6']), ('url_aggregator', 'agg_parse_ipv6', ['agg_update_base_hostname', 'serializers_ipv6'])):
     only = 'ONLY_URL=1' if which == 'url' else 'ONLY_AGG=1'
     OBLS.append(Obl('C02.parse_ipv6.safe_any_length.%s' % which, ['C02', 'C10', 'C04'], 'Pinf', 'c10/ipv6_safe_any.c', roots=[root],
